@@ -160,6 +160,62 @@ def match_known(prop_id, fail):
     return None
 
 
+def _library_exception(e):
+    """an exception that escaped from library code (innermost frame inside the tree under test) through a call the
+    check did not guard: the library raised on a valid case, which is a failure of the case, not of the harness.
+    Exceptions raised by harness code itself stay harness errors (None)."""
+    import traceback
+    from .common import REPO
+
+    tb = traceback.extract_tb(e.__traceback__)
+    if not tb:
+        return None
+    root = os.path.join(os.path.abspath(REPO), "Geometry3D") + os.sep
+    if not os.path.abspath(tb[-1].filename).startswith(root):
+        return None
+    return Fail("a library call raises %s" % type(e).__name__, {"error": repr(e)[:300], "where": "%s:%d" % (os.path.basename(tb[-1].filename), tb[-1].lineno)}, {"unguarded": True})
+
+
+# ---------------------------------------------------------------- watchdog
+CASE_LIMIT_S = int(os.environ.get("G3DVERIF_CASE_LIMIT", "300"))
+
+
+class _Watchdog(object):
+    """A single case (one library call sequence on a handful of small objects) is evaluated in milliseconds to a
+    few seconds. If it has not returned after CASE_LIMIT_S seconds the library is looping: that is reported as a
+    failure of the case (and, like every failure, only becomes a violation if it reproduces on re-evaluation,
+    i.e. after a second limit has run out) instead of hanging the check. This is not a search budget: nothing is
+    concluded from slowness, only from a call that does not come back at all."""
+
+    def __init__(self, what):
+        self.what = what
+        self.old = None
+
+    def _fire(self, signum, frame):
+        raise Fail("a library call does not return (no result after %d s; such a case otherwise takes well under a second)" % CASE_LIMIT_S, {"during": self.what}, {"hang": True})
+
+    def __enter__(self):
+        import signal
+
+        try:
+            self.old = signal.signal(signal.SIGALRM, self._fire)
+            signal.setitimer(signal.ITIMER_REAL, CASE_LIMIT_S)
+        except (ValueError, AttributeError):
+            self.old = None
+        return self
+
+    def __exit__(self, *exc):
+        import signal
+
+        try:
+            signal.setitimer(signal.ITIMER_REAL, 0)
+            if self.old is not None:
+                signal.signal(signal.SIGALRM, self.old)
+        except (ValueError, AttributeError):
+            pass
+        return False
+
+
 # ---------------------------------------------------------------- case execution with triage
 def run_case(ctx, prop, case):
     """execute one case; returns normally when the property held (or the failure was a known
@@ -169,10 +225,17 @@ def run_case(ctx, prop, case):
         ctx.per_stratum[ctx.stratum] += 1
     ctx.cur_nt = False
     try:
-        prop.check(case, ctx)
+        with _Watchdog("case evaluation"):
+            prop.check(case, ctx)
         return
     except Fail as f:
         fail = f
+    except (HarnessError, Violation):
+        raise
+    except Exception as e:
+        fail = _library_exception(e)
+        if fail is None:
+            raise
     handle_fail(ctx, prop, case, fail)
 
 
@@ -202,10 +265,17 @@ def triage(ctx, prop, case, fail):
     ctx.counting = False
     try:
         try:
-            prop.check(case, ctx)
+            with _Watchdog("re-evaluation"):
+                prop.check(case, ctx)
             again = None
         except Fail as f2:
             again = f2
+        except (HarnessError, Violation):
+            raise
+        except Exception as e2:
+            again = _library_exception(e2)
+            if again is None:
+                raise
         if again is None or again.sig != fail.sig:
             raise HarnessError(
                 "failure does not reproduce: first %r then %r on %s"
@@ -334,6 +404,8 @@ def drive_hyp(ctx, prop, stratum, n):
     except Unsatisfiable:
         raise HarnessError("stratum %s/%s is unsatisfiable (generator bug)" % (prop.ID, stratum.name))
     first = ctx.last_fail
+    if first is not None and first[1].facts and first[1].facts.get("hang"):
+        return first  # a case on which the library does not return is not shrunk (every attempt would wait again)
     # second run: same seed, with shrinking, statistics frozen, bounded by an evaluation budget
     budget = [SHRINK_BUDGET.get(ctx.tier, 300)]
     best = [first]
@@ -418,6 +490,8 @@ def drive_machine(ctx, prop, stratum, n):
     except Violation:
         pass
     first = ctx.last_fail
+    if first is not None and first[1].facts and first[1].facts.get("hang"):
+        return first
     was = ctx.counting
     ctx.counting = False
     budget = [SHRINK_BUDGET.get(ctx.tier, 300)]
@@ -562,12 +636,20 @@ def make_history_machine(ctx, prop, rules_spec, init_strategy, step_count=12):
             if step is not None:
                 self.steps.append(step)
             try:
-                if step is None:
-                    self.ex = prop.Executor(self.init)
-                    self.ex.start()
-                else:
-                    self.ex.apply(step)
-            except Fail as f:
+                with _Watchdog("history step"):
+                    if step is None:
+                        self.ex = prop.Executor(self.init)
+                        self.ex.start()
+                    else:
+                        self.ex.apply(step)
+            except (Fail, Exception) as f:
+                if not isinstance(f, Fail):
+                    if isinstance(f, (HarnessError, Violation)):
+                        raise
+                    conv_ = _library_exception(f)
+                    if conv_ is None:
+                        raise
+                    f = conv_
                 self.dead = True
                 case = self._case()
                 try:
